@@ -141,8 +141,12 @@ class PoolRun(DictRun):
         env["TSAN_OPTIONS"] = "halt_on_error=0:exitcode=0:report_signal_unsafe=0:history_size=4:second_deadlock_stack=1"
         env["LC_ALL"] = "C"
         rc, status, info = run_monitored(argv, env, outp, errp, cpu_s=1200, wall_s=1500, detect_deadlock=True)
+        if status is None and rc == -signal.SIGKILL:   # killed from outside (out-of-memory killer, operator): decides nothing
+            status = "wall"
         if status == "wall":   # wall clock never decides: once more
             rc, status, info = run_monitored(argv, env, outp, errp, cpu_s=1200, wall_s=1500, detect_deadlock=True)
+            if status is None and rc == -signal.SIGKILL:
+                status = "wall"
         out = parse_out(outp)
         last_l = ""
         orders = []
